@@ -432,7 +432,7 @@ class Parser:
     def _rvalue_curly(self, dest, code_gen):
         if not self._rvalue_expr(dest, code_gen):
             return False
-        if self.current_token != '}':
+        if not self.current_token.is_mark('}'):
             return self.token_error("Expected closing curly brace, got {}.")
         return self.next_token()
 
@@ -584,7 +584,7 @@ class Parser:
         self._add_instruction(OpCode.CTX)
         self.next_token()
         for param_name in routine.value.params:
-            if self.current_token == ']':
+            if self.current_token.is_mark(']'):
                 return self.trigger_error(
                     'Missing parameter {}'.format(param_name))
             if not self._rvalue():
@@ -592,7 +592,7 @@ class Parser:
             self._add_instruction(OpCode.PARAM, param_name, Register.RESULT)
         self._add_instruction(OpCode.JSR, routine.name)
         if bracketed:
-            if str(self.current_token) != ']':
+            if not self.current_token.is_mark(']'):
                 return self.trigger_error(
                     'No closing bracket for function call.')
             self.next_token()
